@@ -151,6 +151,18 @@ v("ok-bd-diag-parameters-renamed", B, "        def diag(x, index):\n            
 v("bd-diag-parameters-renamed-wrong-mask", B, "        def diag(x, index):\n            x = x[index] if isinstance(x, BlockSeries) else x\n            if index[0] not in to_keep:\n                return x\n            if isinstance(x, sympy.MatrixBase):\n                return x.multiply_elementwise(to_keep[index[0]])\n            if sparse.issparse(x):\n                return x.multiply(to_keep[index[0]])\n            return x * to_keep[index[0]]\n",
   "        def diag(value, idx):\n            value = value[idx] if isinstance(value, BlockSeries) else value\n            if idx[0] not in to_keep:\n                return value\n            if isinstance(value, sympy.MatrixBase):\n                return value.multiply_elementwise(to_keep[idx[0]])\n            if sparse.issparse(value):\n                return value.multiply(to_eliminate[idx[0]])\n            return value * to_keep[idx[0]]\n", ["C01"])
 v("ok-bd-h-eval-vararg-renamed", B, "        def H_eval(*index):\n            result = H_orig[index]\n", "        def H_eval(*key):\n            result = H_orig[key]\n", [])
+v("bd-unpack-bypasses-the-memo", B, "        h = _convert_if_zero(operator[index[2:]], atol=atol)\n", "        h = _convert_if_zero(operator.eval(*index[2:]), atol=atol)\n", ["C12", "C10"], "seed C12-r4")
+v("bd-diag-sparse-branch-dropped", B, "            if sparse.issparse(x):\n                return x.multiply(to_keep[index[0]])\n", "", ["C14", "C01", "C13"], "seed C14-r4",
+  extra=[(B, "            if sparse.issparse(x):\n                return x.multiply(to_eliminate[index[0]])\n", "")])
+v("bd-sparse-mask-memo-without-block", B, "            if sparse.issparse(x):\n                return x.multiply(to_keep[index[0]])\n",
+  "            if sparse.issparse(x):\n                return x.multiply(sparse_mask(to_keep, index, x.shape))\n", ["C10", "C05"], "seed C05-r4",
+  extra=[(B, "        def diag(x, index):\n            x = x[index] if isinstance(x, BlockSeries) else x\n            if index[0] not in to_keep:\n                return x\n",
+          "        sparse_masks = {}\n\n        def sparse_mask(masks, index, shape):\n            key = (masks is to_keep, shape)\n            if key not in sparse_masks:\n                sparse_masks[key] = sparse.csr_array(np.broadcast_to(masks[index[0]], shape))\n            return sparse_masks[key]\n\n        def diag(x, index):\n            x = x[index] if isinstance(x, BlockSeries) else x\n            if index[0] not in to_keep:\n                return x\n"),
+         (B, "            if sparse.issparse(x):\n                return x.multiply(to_eliminate[index[0]])\n", "            if sparse.issparse(x):\n                return x.multiply(sparse_mask(to_eliminate, index, x.shape))\n")])
+v("bd-taylor-cut-at-first-symbol-degree", B, "    def op_eval(*index):\n        expr = operator_derivatives[index].subs({n: 0 for n in symbols})\n",
+  "    degree = max(sympy.Poly(entry, *symbols).degree() for entry in operator)\n\n    def op_eval(*index):\n        if sum(index) > degree:\n            return zero\n        expr = operator_derivatives[index].subs({n: 0 for n in symbols})\n", ["C13", "C14"], "seed C13-r4")
+v("ok-bd-taylor-cut-at-total-degree", B, "    def op_eval(*index):\n        expr = operator_derivatives[index].subs({n: 0 for n in symbols})\n",
+  "    degree = max(sympy.Poly(entry, *symbols).total_degree() for entry in operator)\n\n    def op_eval(*index):\n        if sum(index) > degree:\n            return zero\n        expr = operator_derivatives[index].subs({n: 0 for n in symbols})\n", [])
 v("ok-bd-index-checked-annotated", B, "    index_checked = set()\n", "    index_checked: set[tuple[int, ...]] = set()\n", [])
 v("ok-bd-last-block-named", B, "        if H.shape[0] - 1 in fully_diagonalize:\n", "        last_block = H.shape[0] - 1\n        if last_block in fully_diagonalize:\n", [])
 v("bd-last-block-off-by-one", B, "        if H.shape[0] - 1 in fully_diagonalize:\n", "        last_block = H.shape[0]\n        if last_block in fully_diagonalize:\n", ["C20"])
@@ -185,6 +197,9 @@ v("ok-la-pivot-single-vector-largest-magnitude", L, '    _, _, pivots = qr(kerne
   '    if kernel_vectors.shape[1] == 1:\n        return np.array([np.argmax(np.abs(kernel_vectors[:, 0]))], dtype=int)\n    _, _, pivots = qr(kernel_vectors.T, mode="economic", pivoting=True)\n', [])
 v("la-pivots-qr-of-untransposed-kernel", L, 'qr(kernel_vectors.T, mode="economic", pivoting=True)', 'qr(kernel_vectors, mode="economic", pivoting=True)', ["C16"])
 v("ok-la-pivots-qr-indexed", L, '    _, _, pivots = qr(kernel_vectors.T, mode="economic", pivoting=True)\n', '    pivots = qr(kernel_vectors.T, mode="economic", pivoting=True)[2]\n', [])
+v("la-greens-split-latched-on-first-call", L, "        if np.iscomplexobj(vec) and not is_complex:\n            vec = (vec.real, vec.imag)\n",
+  "        nonlocal split_complex\n        if split_complex is None:\n            split_complex = np.iscomplexobj(vec) and not is_complex\n        if split_complex:\n            vec = (vec.real, vec.imag)\n", ["C10"], "seed C10-r4",
+  extra=[(L, "    def greens_function(vec: np.ndarray) -> np.ndarray:\n", "    split_complex = None\n\n    def greens_function(vec: np.ndarray) -> np.ndarray:\n")])
 v("la-hermitian-flag-too-wide", L, "left_vecs is None or left_vecs is vecs or np.array_equal(left_vecs, vecs)", "left_vecs is None or left_vecs is vecs or left_vecs.shape == vecs.shape", ["C17"])
 # benign
 v("ok-la-matvec-rewritten", L, "return v - self._vecs @ (self._left_vecs.conj().T @ v)", "return v - self._vecs @ (self._left_vecs.T.conj() @ v)", [])
@@ -214,6 +229,9 @@ v("nof-crossing-branch-swapped", N, "                    if orig_power == 1 or n
 v("nof-crossing-misses-higher-creators", N, ") + sum(int(pow == -One) for pow in powers[op_index + 1 :])", ")", ["C08", "C07"])
 v("nof-adjoint-keeps-powers", N, "(tuple(-power for power in powers), coeff.adjoint())", "(tuple(power for power in powers), coeff.adjoint())", ["C08", "C07", "C02"])
 v("nof-adjoint-coefficient-flips-only-i", N, "(tuple(-power for power in powers), coeff.adjoint())", "(tuple(-power for power in powers), coeff.xreplace({sympy.I: -sympy.I}))", ["C08", "C07", "C02"], "seed C02-r4: complex symbols are not conjugated")
+v("nof-number-power-ladder-idempotent", N, 'and self.args[1].name not in ("BosonOp", "LadderOp")', 'and self.args[1].name not in ("BosonOp",)', ["C08", "C07"], "seed C08-r4")
+v("nof-number-power-zero-exponent", N, "            exp.is_integer\n            and exp != 0\n            and self.args[1].name", "            exp.is_integer\n            and self.args[1].name", ["C08", "C07"])
+v("ok-nof-number-power-positive-list", N, 'and self.args[1].name not in ("BosonOp", "LadderOp")', 'and self.args[1].name in ("FermionOp", "SigmaOpBase")', [])
 v("nof-expr-shift-on-creation", N, "                    if power > 0:\n                        # a * n_a = n_a + 1\n                        replacements[n_i] = n_i + power", "                    if power < 0:\n                        # a * n_a = n_a + 1\n                        replacements[n_i] = n_i + power", ["C08", "C07"])
 v("nof-phases-reordered", N, "            # Now multiply by the number part\n            partial = partial._multiply_expr(coeff)\n", "", ["C08", "C07"])
 v("ok-nof-reversed-tuple", N, "for i, power in reversed(list(enumerate(powers))):", "for i, power in reversed(tuple(enumerate(powers))):", [])
@@ -269,6 +287,16 @@ v("ap-input-data-by-loop-suffix-lost", P, """        **{
                 block + zeroth_order: input_series[block + zeroth_order] for block in all_blocks
             }
 """, ["C09"])
+v("ap-parse-memo-keyed-by-name", P, "@cache\ndef _parse_algorithm(", "_parsed_algorithms = {}\n\n\ndef _parse_algorithm(", ["C09", "C10", "C01"], "seed C09-r4",
+  extra=[(P, "    source = ast.parse(inspect.getsource(func))\n    series, products, outputs = _preprocess_algorithm(source.body[0])\n",
+          "    name = f\"{func.__module__}.{func.__qualname__}\"\n    if name in _parsed_algorithms:\n        return _parsed_algorithms[name]\n    source = ast.parse(inspect.getsource(func))\n    series, products, outputs = _preprocess_algorithm(source.body[0])\n"),
+         (P, "        term.definition = _EvalTransformer(to_delete[term.name]).visit(term.definition)\n\n    return series, products, outputs\n",
+          "        term.definition = _EvalTransformer(to_delete[term.name]).visit(term.definition)\n\n    _parsed_algorithms[name] = series, products, outputs\n    return series, products, outputs\n")])
+v("ok-ap-parse-memo-keyed-by-function", P, "@cache\ndef _parse_algorithm(", "_parsed_algorithms = {}\n\n\ndef _parse_algorithm(", [], "a hand-written memo with the key functools.cache uses",
+  extra=[(P, "    source = ast.parse(inspect.getsource(func))\n    series, products, outputs = _preprocess_algorithm(source.body[0])\n",
+          "    if func in _parsed_algorithms:\n        return _parsed_algorithms[func]\n    source = ast.parse(inspect.getsource(func))\n    series, products, outputs = _preprocess_algorithm(source.body[0])\n"),
+         (P, "        term.definition = _EvalTransformer(to_delete[term.name]).visit(term.definition)\n\n    return series, products, outputs\n",
+          "        term.definition = _EvalTransformer(to_delete[term.name]).visit(term.definition)\n\n    _parsed_algorithms[func] = series, products, outputs\n    return series, products, outputs\n")])
 v("ap-del-single-cache", P, "        series[series_name].pop(index, None)\n        linear_operator_series[series_name].pop(index, None)", "        series[series_name].pop(index, None)", ["C06"])
 v("ok-ap-diagonal-adjoint-index", P, "slice=ast.Index(value=self._index(adjoint and (not self.diagonal))),", "slice=ast.Index(value=self._index(adjoint)),", [], "on diagonal blocks the swapped index equals the index")
 
